@@ -18,10 +18,9 @@ META = dict(
 )
 
 # TLC evaluates the transcribed machine at ~0.3 ms per case, so the bounds are set by the time budget
-BOUNDS = {"quick": [dict(A1=4, A2=2, A3=1, MaxStr=6, WithTab="FALSE")],
+BOUNDS = {"quick": [dict(A1=4, A2=3, A3=1, MaxStr=5, WithTab="FALSE")],
           "thorough": [dict(A1=6, A2=3, A3=2, MaxStr=7, WithTab="FALSE"),
                        dict(A1=0, A2=0, A3=0, MaxStr=6, WithTab="TRUE")]}
-WITNESS_BOUNDS = dict(A1=3, A2=2, A3=1, MaxStr=5, WithTab="FALSE")     # witnesses live in the smallest space already
 WITNESSES = ("WitnessEscapedSingle", "WitnessTrailingRun", "WitnessEmptyArg", "WitnessPushback", "WitnessEmptyTokens")
 
 
@@ -70,15 +69,16 @@ def run(ctx):
     env.init()
     table_common.narrow_jvm()
     cases, seen = [], set()
-    for consts in BOUNDS[ctx.tier]:
-        for k in table.generate(ctx, "CmdlineGen", consts, witnesses=(), workers=8):
+    for n, consts in enumerate(BOUNDS[ctx.tier]):
+        # one TLC run: laws proved on every case, witnesses reached (they live in the first configuration), table exported
+        part, _ = table_common.generate(ctx, "CmdlineGen", consts, witnesses=WITNESSES if n == 0 else (), workers=8)
+        for k in part:
             key = (k["c"]["quoted"], _s(k["c"]["line"]), k["c"]["sq"], tuple(_s(a) for a in k["c"]["args"]))
             if key not in seen:
                 seen.add(key)
                 cases.append(k)
     if not cases:
         ctx.machinery("CmdlineGen exported no cases")
-    table_common.witnesses(ctx, "CmdlineGen", WITNESS_BOUNDS, WITNESSES)
     core.fork_map(ctx, _replay, cases, nproc=8 if ctx.quick else 16, chunks_per_proc=1)
     b = BOUNDS[ctx.tier][0]
     ctx.rule("argument lists: [], 1 arg of <=%(A1)s chars, 2 args of <=%(A2)s chars, 3 args of <=%(A3)s chars, quoted by "
